@@ -392,19 +392,45 @@ impl SysSpec {
         A: Actor,
         A::Msg: Code,
     {
-        ActorModel::new(self.hist, Vec::new())
-            .actors(actors)
-            .init_network(self.network::<A::Msg>())
-            .lossy_network(if self.lossy { LossyNetwork::Yes } else { LossyNetwork::No })
-            .max_crashes(self.max_crashes)
-            .record_msg_in(record_in::<A::Msg>)
-            .record_msg_out(record_out::<A::Msg>)
+        // The builder calls are independent settings: the model must not depend on the ORDER in which they are made.
+        // `BUILDER_ORDER` (set by the harness bins per system) picks one of three orders.
+        let lossy = if self.lossy { LossyNetwork::Yes } else { LossyNetwork::No };
+        match BUILDER_ORDER.load(std::sync::atomic::Ordering::Relaxed) % 3 {
+            0 => ActorModel::new(self.hist, Vec::new())
+                .actors(actors)
+                .init_network(self.network::<A::Msg>())
+                .lossy_network(lossy)
+                .max_crashes(self.max_crashes)
+                .record_msg_in(record_in::<A::Msg>)
+                .record_msg_out(record_out::<A::Msg>),
+            1 => {
+                // everything first, the actors last and one by one
+                let mut m = ActorModel::new(self.hist, Vec::new())
+                    .max_crashes(self.max_crashes)
+                    .record_msg_out(record_out::<A::Msg>)
+                    .lossy_network(lossy)
+                    .record_msg_in(record_in::<A::Msg>)
+                    .init_network(self.network::<A::Msg>());
+                for a in actors { m = m.actor(a); }
+                m
+            }
+            _ => ActorModel::new(self.hist, Vec::new())
+                .init_network(self.network::<A::Msg>())
+                .max_crashes(self.max_crashes)
+                .actors(actors)
+                .record_msg_in(record_in::<A::Msg>)
+                .lossy_network(lossy)
+                .record_msg_out(record_out::<A::Msg>),
+        }
     }
     /// plain `TableActor`s over the tables
     pub fn table_actors<M: Code>(&self, log: Option<&Log>) -> Vec<TableActor<M>> {
         self.tables.iter().map(|t| TableActor::new(t.clone(), log.cloned())).collect()
     }
 }
+
+/// which order of builder calls `SysSpec::model` uses (see there)
+pub static BUILDER_ORDER: std::sync::atomic::AtomicU8 = std::sync::atomic::AtomicU8::new(0);
 
 // ---------------------------------------------------------------------------------------------------------
 // generators
